@@ -129,8 +129,6 @@ package trie2
 // remaining key (Cmp orders by length first, so an unpadded internal edge, always shorter than the
 // remaining key, would never compare greater and an empty range would be accepted although larger keys
 // exist). The padding is to exactly the key's length.
-//@ extern func github.com/NethermindEth/juno/core/trie2/trienode.(*BinaryNode).Right
-//@ extern func github.com/NethermindEth/juno/core/trie2/trienode.(*EdgeNode).PathMatches
 //@ func hasRightElement
 //@   props C10
 //@   arith bv
